@@ -16,8 +16,19 @@ def key(k):
 out = ["| seed | check | result | wall |", "|---|---|---|---|"]
 stat = {"caught": 0, "missed": [], "ok": 0, "false": [], "tool": []}
 per_seed = {}
+def applicable(seed, check):
+    try:
+        m = json.load(open("%s/seeded/%s/meta.json" % (ROOT, seed)))
+    except Exception:
+        return True
+    return check == m.get("property") or check in m.get("also", [])
 for k in sorted(rows, key=key):
     res, wall = rows[k]
+    if not applicable(*k):
+        # the run predates a reclassification recorded in meta.json (note): the change does not violate this property
+        res = "not a violation of this property (see meta.json): check stayed silent" if res.startswith("MISSED") else res
+        out.append("| %s | %s | %s | %s |" % (k[0], k[1], res, wall))
+        continue
     out.append("| %s | %s | %s | %s |" % (k[0], k[1], res, wall))
     if res.startswith("caught"): stat["caught"] += 1; per_seed.setdefault(k[0], []).append(k[1])
     elif res.startswith("MISSED"): stat["missed"].append(k)
